@@ -135,3 +135,8 @@ fn c12_end_flushes_tail_once_and_no_bail_out_on_end_handler_error() {
     core::mem::forget(r);
     core::mem::forget(ts);
 }
+
+// NOTE: whole-document scenarios for C09 ("a</1>b", "<title></b>c", ... with a symbolic last byte) were tried
+// here and do not fit: after a handful of state calls the state-function pointer of the parsing loop is a join
+// of paths and every further step explores ~70 targets (> 8 GB, no verdict in 10 min). C09 is decided by the
+// per-state scanner lemmas instead.
